@@ -161,6 +161,57 @@ func c03Drive(args []string) error {
 		}
 		rep.Count(po.Name, true, nil)
 	}
+	// lazily sized mdat boxes (payload written separately) around the limit of the 32-bit size field: every encoder on its OWN
+	// fresh object, so that neither benefits from state the other one left behind (MdatBox.Size switches LargeSize on)
+	for _, n := range []uint64{1<<32 - 10, 1<<32 - 9, 1<<32 - 8, 1<<32 + 5} {
+		for _, level := range []string{"mdat", "fragment"} {
+			mk := func() (sizedObj, error) {
+				if level == "mdat" {
+					m := &mp4.MdatBox{}
+					m.SetLazyDataSize(n)
+					return m, nil
+				}
+				fr, err := mp4.CreateFragment(1, 1)
+				if err != nil {
+					return nil, err
+				}
+				fr.AddSample(mp4.Sample{Flags: 0x02000000, Dur: 10, Size: uint32(n >> 1)}, 0)
+				fr.AddSample(mp4.Sample{Flags: 0x01010000, Dur: 10, Size: uint32(n - n>>1)}, 10)
+				return fr, nil
+			}
+			name := fmt.Sprintf("api:lazy-%s(payload=2^32%+d)", level, int64(n)-1<<32)
+			a, err1 := mk()
+			b, err2 := mk()
+			if err1 != nil || err2 != nil {
+				continue
+			}
+			var w, sbytes []byte
+			var eW, eS error
+			func() {
+				defer func() {
+					if r := recover(); r != nil {
+						eW = fmt.Errorf("panic: %v", r)
+					}
+				}()
+				var buf bytes.Buffer
+				eW = a.Encode(&buf)
+				w = buf.Bytes()
+			}()
+			func() {
+				defer func() {
+					if r := recover(); r != nil {
+						eS = fmt.Errorf("panic: %v", r)
+					}
+				}()
+				sw := bits.NewFixedSliceWriter(4096)
+				eS = b.EncodeSW(sw)
+				sbytes = sw.Bytes()
+			}()
+			tw.Reset(J{"obj": name, "kind": "box", "type": level})
+			tw.Ev(J{"ev": "enc2", "errW": errStr(eW), "errSW": errStr(eS), "same": bytes.Equal(w, sbytes), "lenW": len(w), "lenSW": len(sbytes)})
+			rep.Count(name, true, nil)
+		}
+	}
 	for _, rf := range extra {
 		tw.Reset(J{"obj": rf.name, "kind": "file", "type": "file"})
 		c03Dec2File(tw, rf.data)
